@@ -487,3 +487,9 @@ def run(ctx):
     round3.check_byte_indexed_tables(ctx, "R19.5")
     round3.check_lpt_table_access(ctx, "R19.5")
     round3.check_gate_skips_exhausted(ctx, "R19.5")
+    ctx.rule("R19.6", "more crash shapes: model_event / model_event_print on an event whose model byte nobody "
+             "registered return an error without dereferencing the NULL spec; ovnisort's ring helpers stay inside the "
+             "ring (C16 R16.7's evaluation of rebuild_ring / ring_check on wrapped rings)")
+    from rules import round4
+    round4.check_unregistered_model_byte(ctx, "R19.6")
+    round4.check_ring_helpers(ctx, "R19.6")
